@@ -51,7 +51,9 @@
 //	    The constants TypeX are the constructors of `Kind`.  `x == y` on interface values is `L.goEq`.
 //	R8  allocation.  `x := &list{val: e}` followed by `x.Init(x)` is a new cell `.list e 0` at address
 //	    `h.length` (appended when the next heap operation or the return needs it); the value `x`
-//	    returned as a `List` is `⟨h.length, 0⟩`.
+//	    returned as a `List` is `⟨h.length, 0⟩`.  `e` must be a slice of its own (`[]field{}`, `make(…)`,
+//	    `append` to such a slice, a local holding one): sharing a backing array with an existing list is
+//	    not modelled (R1), so `&list{val: ego.val[:n]}` and the like are refused.
 //	R9  loops are recursive helper functions `…LoopGen`:
 //	    - `for i, x := range xs` is structural recursion over the list `xs` (`i : Int` counts from 0);
 //	    - `for i := len(s) - 1; i >= 0; i--` whose body uses `i` only as `s[i]` is recursion over `s.reverse`;
@@ -85,6 +87,11 @@
 //	    (`wrap64`, as in the model's aggregates); index / length arithmetic is bounded by the list
 //	    length and is not wrapped (R11).  `x op= e` is `x = x op e`.  A named result starts with the
 //	    zero value; a bare `return` returns it.
+//	R15 `var x int` / `bool` / `float64` is a local holding the zero value.  `var x any` is an interface variable
+//	    without value: it may not be read before it is assigned; the assignment `x = s` of a typed scalar slice
+//	    (R12) makes it denote `s` (an interface holds the value with its dynamic type, so `NewListFrom(x)` is
+//	    `NewListFrom(s)`); no other value may be assigned to it.  Where two paths assign different values the
+//	    continuation is translated once per path (R10).
 //	R11 Go `int` is `Int` (overflow not modelled here), `/` requires a length as dividend and a
 //	    positive literal divisor (then Go's truncation and Lean's `/` agree).
 package main
@@ -194,6 +201,63 @@ var listTargets = []struct {
 	{"Avg", true, "avgGen"},
 }
 
+// orderedListTargets is listTargets with every function behind the translated functions its body calls (a
+// maintainer may express one method through another that the table lists later, e.g. Contains through IndexOf): the
+// table order is kept wherever it already is callees-first.  A call is recognised syntactically (`F(…)` for a
+// function, `x.M(…)` for a method of that name on any operand); a cycle is left in table order (the translator then
+// refuses the call of the function that is not translated yet).
+func orderedListTargets(pkg *pkgInfo) []int {
+	index := map[string]int{}
+	for i, t := range listTargets {
+		if t.method {
+			index["list."+t.goName] = i
+		} else {
+			index[t.goName] = i
+		}
+	}
+	state := make([]int, len(listTargets)) // 0 new, 1 being visited, 2 done
+	var out []int
+	var visit func(i int)
+	visit = func(i int) {
+		if state[i] != 0 {
+			return
+		}
+		state[i] = 1
+		t := listTargets[i]
+		var decl *ast.FuncDecl
+		if t.method {
+			if m := pkg.methods["list"][t.goName]; m != nil {
+				decl = m.decl
+			}
+		} else {
+			decl = pkg.funcs[t.goName]
+		}
+		if decl != nil && decl.Body != nil {
+			ast.Inspect(decl.Body, func(n ast.Node) bool {
+				if call, ok := n.(*ast.CallExpr); ok {
+					switch fun := call.Fun.(type) {
+					case *ast.Ident:
+						if j, ok := index[fun.Name]; ok {
+							visit(j)
+						}
+					case *ast.SelectorExpr:
+						if j, ok := index["list."+fun.Sel.Name]; ok {
+							visit(j)
+						}
+					}
+				}
+				return true
+			})
+		}
+		state[i] = 2
+		out = append(out, i)
+	}
+	for i := range listTargets {
+		visit(i)
+	}
+	return out
+}
+
 // ---------------------------------------------------------------------------------------------
 // data
 
@@ -216,6 +280,10 @@ type lbind struct {
 	hi   string // NilSlice: source of the length expression
 	as   string // Val obtained by `v, ok := x.(T)` with a scalar T: the Go type T
 	wrap bool   // Int computed from element values: arithmetic on it wraps to 64 bits (R14)
+	// a local declared `var x any` (R15): typ is that of the value it holds ("NilAny": none yet)
+	iface bool
+	// Fields / Vals whose backing array is not that of an existing list: `[]T{}`, `make(…)`, `append(fresh, …)` (R8)
+	fresh bool
 }
 
 type lcell struct {
@@ -653,6 +721,9 @@ func (x *lctx) expr(env *lenv, e ast.Expr) lbind {
 		}
 	case *ast.Ident:
 		if b, ok := env.locals[e.Name]; ok {
+			if b.typ == "NilAny" {
+				failAt(e, "%s is read before a value is assigned to it", e.Name)
+			}
 			return b
 		}
 		switch e.Name {
@@ -723,7 +794,7 @@ func (x *lctx) expr(env *lenv, e ast.Expr) lbind {
 		}
 	case *ast.CompositeLit:
 		if at, ok := e.Type.(*ast.ArrayType); ok && at.Len == nil && len(e.Elts) == 0 && src(at.Elt) == "field" {
-			return lbind{typ: "Fields", lean: "[]"}
+			return lbind{typ: "Fields", lean: "[]", fresh: true}
 		}
 	case *ast.CallExpr:
 		return x.callExpr(env, e)
@@ -977,15 +1048,15 @@ func (x *lctx) callExpr(env *lenv, call *ast.CallExpr) lbind {
 						failAt(call, "append of a %s to a %s", y.typ, xs.typ)
 					}
 					if xs.lean == "[]" {
-						return lbind{typ: xs.typ, lean: y.lean}
+						return lbind{typ: xs.typ, lean: y.lean, fresh: xs.fresh}
 					}
-					return lbind{typ: xs.typ, lean: paren(xs.lean) + " ++ " + paren(y.lean)}
+					return lbind{typ: xs.typ, lean: paren(xs.lean) + " ++ " + paren(y.lean), fresh: xs.fresh}
 				}
 				// a stored field appended to a slice of interface values keeps its representation
 				if y.typ != elem && !(elem == "Val" && y.typ == "Field") {
 					failAt(call, "append of a %s to a %s", y.typ, xs.typ)
 				}
-				return lbind{typ: xs.typ, lean: paren(xs.lean) + " ++ [" + y.lean + "]"}
+				return lbind{typ: xs.typ, lean: paren(xs.lean) + " ++ [" + y.lean + "]", fresh: xs.fresh}
 			}
 		case "float64":
 			if len(call.Args) == 1 {
@@ -1007,7 +1078,7 @@ func (x *lctx) callExpr(env *lenv, call *ast.CallExpr) lbind {
 						if !x.isNonneg(env, call.Args[2]) && !env.nonneg[key(call.Args[2])] {
 							failAt(call, "internal: unchecked capacity")
 						}
-						return lbind{typ: t, lean: "[]"}
+						return lbind{typ: t, lean: "[]", fresh: true}
 					}
 				}
 			}
@@ -1474,12 +1545,18 @@ func (x *lctx) execList(list []ast.Stmt, env *lenv, k lkont) lnode {
 }
 
 func (x *lctx) execBlock(list []ast.Stmt, env *lenv, k lkont) lnode {
+	return x.execBlockDef(list, env, "_", lbind{}, k)
+}
+
+// execBlockDef is execBlock with a variable declared by the block's header (the variable a type switch binds)
+func (x *lctx) execBlockDef(list []ast.Stmt, env *lenv, name string, b lbind, k lkont) lnode {
 	saved := map[string]lbind{}
 	for n, b := range env.locals {
 		saved[n] = b
 	}
 	env.decls = append(env.decls, map[string]bool{})
 	env.saved = append(env.saved, saved)
+	env.define(name, b)
 	return x.execList(list, env, func(e *lenv) lnode {
 		top := len(e.decls) - 1
 		for n := range e.decls[top] {
@@ -1593,9 +1670,36 @@ func (x *lctx) exec(st ast.Stmt, env *lenv, k lkont) lnode {
 		return x.execFor(st, env, k)
 	case *ast.TypeSwitchStmt:
 		return x.execTypeSwitch(st, env, k)
+	case *ast.DeclStmt:
+		return x.execDecl(st, env, k)
 	}
 	failAt(st, "unrecognised statement: %s", src(st))
 	return nil
+}
+
+// `var x T` (R15)
+func (x *lctx) execDecl(st *ast.DeclStmt, env *lenv, k lkont) lnode {
+	gd, ok := st.Decl.(*ast.GenDecl)
+	if !ok || gd.Tok != token.VAR || len(gd.Specs) != 1 {
+		failAt(st, "unrecognised declaration: %s", src(st))
+	}
+	vs, ok := gd.Specs[0].(*ast.ValueSpec)
+	if !ok || len(vs.Names) != 1 || len(vs.Values) != 0 || vs.Type == nil {
+		failAt(st, "unrecognised declaration: %s", src(st))
+	}
+	switch src(vs.Type) {
+	case "int":
+		env.define(vs.Names[0].Name, lbind{typ: "Int", lean: "0"})
+	case "bool":
+		env.define(vs.Names[0].Name, lbind{typ: "Bool", lean: "false"})
+	case "float64":
+		env.define(vs.Names[0].Name, lbind{typ: "F64", lean: "FloatArith.zero"})
+	case "any":
+		env.define(vs.Names[0].Name, lbind{typ: "NilAny", iface: true})
+	default:
+		failAt(st, "declaration of a variable of unsupported type: %s", src(st))
+	}
+	return k(env)
 }
 
 func (x *lctx) execReturn(st *ast.ReturnStmt, env *lenv) lnode {
@@ -1889,6 +1993,10 @@ func (x *lctx) execAssign(st *ast.AssignStmt, env *lenv, k lkont) lnode {
 				pending := v.lean
 				switch v.typ {
 				case "Fields":
+					if !v.fresh {
+						// R8: the slice of an existing list (or a part of it) would be shared with the new list
+						failAt(st, "the new list does not get a slice of its own: %s", src(kv.Value))
+					}
 				case "NilSlice":
 					pending = "<nil>" + v.hi
 				default:
@@ -1916,7 +2024,15 @@ func (x *lctx) execAssign(st *ast.AssignStmt, env *lenv, k lkont) lnode {
 				}
 			}
 			if !declare {
-				if old := env.locals[l.Name]; normTyp(old.typ) != normTyp(v.typ) {
+				if old := env.locals[l.Name]; old.iface {
+					// R15: an `any` variable takes the value with its dynamic type
+					switch v.typ {
+					case "StrVals", "IntVals", "FloatVals":
+						v.iface = true
+					default:
+						failAt(st, "a %s is assigned to the interface variable %s", v.typ, l.Name)
+					}
+				} else if normTyp(old.typ) != normTyp(v.typ) {
 					failAt(st, "%s changes its type from %s to %s", l.Name, old.typ, v.typ)
 				} else {
 					v.typ = old.typ
@@ -2007,16 +2123,41 @@ func (x *lctx) execSwap(st *ast.AssignStmt, env *lenv, k lkont) lnode {
 }
 
 func (x *lctx) execTypeSwitch(st *ast.TypeSwitchStmt, env *lenv, k lkont) lnode {
-	es, ok := st.Assign.(*ast.ExprStmt)
-	if st.Init != nil || !ok {
+	if st.Init != nil {
 		failAt(st, "unrecognised type switch")
 	}
-	ta, ok := es.X.(*ast.TypeAssertExpr)
-	if !ok || ta.Type != nil {
+	// `switch x.(type)` or `switch v := x.(type)`
+	var ta *ast.TypeAssertExpr
+	bound := ""
+	switch a := st.Assign.(type) {
+	case *ast.ExprStmt:
+		ta, _ = a.X.(*ast.TypeAssertExpr)
+	case *ast.AssignStmt:
+		if a.Tok == token.DEFINE && len(a.Lhs) == 1 && len(a.Rhs) == 1 {
+			if id, ok := a.Lhs[0].(*ast.Ident); ok {
+				ta, _ = a.Rhs[0].(*ast.TypeAssertExpr)
+				bound = id.Name
+			}
+		}
+	}
+	if ta == nil || ta.Type != nil {
 		failAt(st, "unrecognised type switch")
 	}
-	return x.hoist(env, []ast.Expr{ta.X}, "", func(env *lenv) lnode {
+	return x.hoist(env, []ast.Expr{ta.X}, bound, func(env *lenv) lnode {
 		operand := x.expr(env, ta.X)
+		// the clause body, with the bound variable (R7): in a clause with one type T it is the operand asserted to T,
+		// exactly as `v, ok := x.(T)` binds it where ok holds; in any other clause it is the operand itself
+		clause := func(cc *ast.CaseClause) lnode {
+			e := env.clone()
+			if bound == "" || bound == "_" {
+				return x.execBlock(cc.Body, e, k)
+			}
+			v := operand
+			if len(cc.List) == 1 && operand.typ == "Val" && !isIdent(cc.List[0], "nil") {
+				v.as = src(cc.List[0])
+			}
+			return x.execBlockDef(cc.Body, e, bound, v, k)
+		}
 		m := lMatch{scrut: paren(operand.lean) + ".kind"}
 		var deflt *ast.CaseClause
 		seen := map[string]bool{}
@@ -2035,10 +2176,10 @@ func (x *lctx) execTypeSwitch(st *ast.TypeSwitchStmt, env *lenv, k lkont) lnode 
 				seen[kd] = true
 				pats = append(pats, kd)
 			}
-			m.arms = append(m.arms, lArm{pat: strings.Join(pats, " | "), body: x.execBlock(cc.Body, env.clone(), k)})
+			m.arms = append(m.arms, lArm{pat: strings.Join(pats, " | "), body: clause(cc)})
 		}
 		if deflt != nil {
-			m.arms = append(m.arms, lArm{pat: "_", body: x.execBlock(deflt.Body, env.clone(), k)})
+			m.arms = append(m.arms, lArm{pat: "_", body: clause(deflt)})
 		} else {
 			m.arms = append(m.arms, lArm{pat: "_", body: k(env.clone())})
 		}
@@ -2606,6 +2747,34 @@ func anyParamIsVal(fd *ast.FuncDecl, name string) bool {
 	return isVal
 }
 
+// is the `any` parameter handed on, as it is, to a parameter of a translated function that is a Val?
+func (g *lgen) anyParamPassedAsVal(fd *ast.FuncDecl, name string) bool {
+	isVal := false
+	ast.Inspect(fd.Body, func(n ast.Node) bool {
+		call, ok := n.(*ast.CallExpr)
+		if !ok || call.Ellipsis.IsValid() {
+			return true
+		}
+		var callee *lfun
+		switch fun := call.Fun.(type) {
+		case *ast.Ident:
+			callee = g.funs[fun.Name]
+		case *ast.SelectorExpr:
+			callee = g.funs["list."+fun.Sel.Name]
+		}
+		if callee == nil {
+			return true
+		}
+		for i, a := range call.Args {
+			if isIdent(unparen(a), name) && i < len(callee.params) && callee.params[i].typ == "Val" && !callee.params[i].variadic {
+				isVal = true
+			}
+		}
+		return true
+	})
+	return isVal
+}
+
 func (g *lgen) params(f *lfun) {
 	for _, p := range f.decl.Type.Params.List {
 		for _, n := range p.Names {
@@ -2665,7 +2834,7 @@ func (g *lgen) params(f *lfun) {
 					lp.typ = "Ref"
 				case "any":
 					lp.typ = "GoVal"
-					if anyParamIsVal(f.decl, n.Name) {
+					if anyParamIsVal(f.decl, n.Name) || g.anyParamPassedAsVal(f.decl, n.Name) {
 						lp.typ = "Val"
 					}
 				}
@@ -2811,7 +2980,8 @@ func genListOps(pkg *pkgInfo) (text string, err error) {
 	b.WriteString("A translation of the sequence core of `*list` into Lean, statement by statement, under the\nrestructuring rules listed at the top of vextract/listgen.go (heap passing, `ego.val` as a\n`List Val`, loops as recursive helpers, panics by message prefix).  Lemmas/ListGenEq.lean proves\nevery definition equal to the hand-written model (Model/ListOps.lean, Model/Normalize.lean), so a\nchange of the Go source that alters the behaviour breaks the build.\n-/\n")
 	b.WriteString("import Anytype.Model.ListOps\nimport Anytype.Model.Aggregates\nset_option linter.unusedVariables false\nnamespace Anytype.Generated\nopen Anytype\n\n")
 	b.WriteString(listGenPrelude)
-	for _, t := range listTargets {
+	for _, ti := range orderedListTargets(pkg) {
+		t := listTargets[ti]
 		f := &lfun{goName: t.goName, lean: t.lean, method: t.method}
 		if t.method {
 			m := pkg.methods["list"][t.goName]
